@@ -7,7 +7,7 @@ What is read from /repo/src/srctools/filesys.py (class RawFileSystem), all fail-
   `RootEscapeError` under a boolean condition and returns `abs_path`.  The *raise condition* (conjunction of the
   enclosing `if` tests) is translated into the predicate language of rocq/SM/PathNorm.v (`gx` over string
   expressions `sx`): names `abs_path`, `self.path`, `os.sep`, string constants, `+`, `.rstrip(os.sep)`,
-  `os.path.join(a, b)`, `os.path.commonpath([a, b])`, `a if x.endswith(os.sep) else b`, local string variables
+  `os.path.join(a, b)`, `os.path.commonpath([a, b])`, `os.path.commonprefix([a, b])` (character-wise), `a if x.endswith(os.sep) else b`, local string variables
   (substituted); `==`, `!=`, `.startswith`, `.endswith`, `not`, `and`, `or`, `self.constrain_path`, True/False.
   Anything else raises TranslateError.
 * a census of every call inside RawFileSystem that touches the operating system (open, os.walk, os.stat,
@@ -24,7 +24,7 @@ from harness.common import TranslateError, ast_digest, src_text
 # calls that are pure string manipulation (no file-system access apart from getcwd in abspath)
 PURE_OS = {'os.path.join', 'os.path.abspath', 'os.path.relpath', 'os.path.normpath', 'os.fspath', 'os.path.normcase',
            'os.path.basename', 'os.path.dirname', 'os.path.split', 'os.path.splitext', 'os.path.commonpath',
-           'os.path.isabs'}
+           'os.path.isabs', 'os.path.commonprefix'}
 # calls that reach the file system through their first argument
 ACCESS = {'open', 'os.walk', 'os.stat', 'os.lstat', 'os.path.isfile', 'os.path.isdir', 'os.path.exists',
           'os.path.getmtime', 'os.path.getsize', 'os.listdir', 'os.scandir', 'io.open', 'os.open', 'os.path.lexists'}
@@ -89,6 +89,10 @@ class _Tr:
                     and isinstance(n.args[0], (ast.List, ast.Tuple)) and len(n.args[0].elts) == 2:
                 a, b = n.args[0].elts
                 return f'(SCommon {self.sx(a)} {self.sx(b)})'
+            if fd in ('os.path.commonprefix', 'posixpath.commonprefix', 'genericpath.commonprefix') and len(n.args) == 1 \
+                    and isinstance(n.args[0], (ast.List, ast.Tuple)) and len(n.args[0].elts) == 2:
+                a, b = n.args[0].elts          # character-wise: translated faithfully, never accepted by raise_sound
+                return f'(SCommonPrefix {self.sx(a)} {self.sx(b)})'
         self.fail(n, 'unrecognised string expression')
 
     def gx(self, n: ast.AST) -> str:
